@@ -145,6 +145,7 @@ package client
 //@   ensures [store-non] reqType == 1 && old(w.response.isModified) && !(old(w.response.msg.Type) == 3 || old(w.response.msg.Code) == 0) ==> called(Store)
 //@   ensures [reply-con] reqType == 0 && err == nil ==> w.response.msg.MessageID == reqMessageID && w.response.msg.Type == 2
 //@   ensures [never-looks-up] notCalled(Load)
+//@   ensures [stored-reply-is-final] called(Store) ==> (notCalled(SetToken) || callSeq(SetToken, callCount(SetToken) - 1) < callSeq(Store, 0)) && (notCalled(SetCode) || callSeq(SetCode, callCount(SetCode) - 1) < callSeq(Store, 0)) && (notCalled(SetType) || callSeq(SetType, callCount(SetType) - 1) < callSeq(Store, 0)) && (notCalled(SetMessageID) || callSeq(SetMessageID, callCount(SetMessageID) - 1) < callSeq(Store, 0))
 //@   ensures [suppressed-con-gets-bare-ack] reqType == 0 && !old(w.response.isModified) ==> w.response.msg.Code == 0 && w.response.msg.Type == 2 && w.response.msg.MessageID == reqMessageID && w.response.msg.Token == nil
 //@   ensures [suppressed-non-gets-nothing] reqType != 0 && !old(w.response.isModified) ==> !w.response.isModified && notCalled(Store)
 //
@@ -181,7 +182,7 @@ package client
 //
 //@ func (*Conn) AcquireMessage(ctx context.Context) (m *pool.Message)
 //@   trusted
-//@   ensures m != nil && fresh(m) && len(m.msg.Options) == 0 && (cap(m.bufferUnmarshal) == 0 || fresh(m.bufferUnmarshal)) && (cap(m.msg.Options) == 0 || fresh(m.msg.Options))
+//@   ensures m != nil && fresh(m) && len(m.msg.Options) == 0 && (cap(m.bufferUnmarshal) == 0 || fresh(m.bufferUnmarshal)) && (cap(m.msg.Options) == 0 || fresh(m.msg.Options)) && (cap(m.msg.Token) == 0 || fresh(m.msg.Token)) && (cap(m.valueBuffer) == 0 || fresh(m.valueBuffer))
 //
 //@ func (*Conn) Sequence() (s uint64)
 //@   trusted
